@@ -165,6 +165,9 @@ impl Engine for CacheEngine {
             let after = wx.snapshot();
             // ---- oracle of C01 (sequential part): one stable handle per key, also for the handles loaders were given
             let goi_filled = SeenTracker::goi_targets();
+            // keys a loader filled itself (get_or_insert) or that a nested load cached (a child loading its parent back while the
+            // parent is being loaded — possible without unbounded recursion once the parent has filled its own slot)
+            let nested = SeenTracker::loader_obtained();
             for f in tracker.after_op(&wx, line, &after) { rec.oracle_fail(f); }
             if !goi_filled.is_empty() { rec.stat("loader-get-or-insert"); }
             // ---- oracle: the statement of C02 on the snapshots
@@ -179,9 +182,9 @@ impl Engine for CacheEngine {
                     let own = key.clone().unwrap();
                     let ok = out.starts_with("ok ") || opname == "goi";
                     if opname == "load" && ok && !after.contains_key(&own) { rec.oracle_fail(format!("load-not-cached `{line}` succeeded but the key is absent")); }
-                    // (a key a loader filled itself with get_or_insert is not an addition of the load)
-                    if opname == "load" && !ok && added.contains(&own) && !goi_filled.contains(&own) { rec.oracle_fail(format!("failed-load-cached `{line}` failed but cached its own key")); }
-                    if opname == "owned" && added.contains(&own) && !goi_filled.contains(&own) { rec.oracle_fail(format!("load-owned-cached `{line}` cached its own key")); }
+                    // (a key a loader filled itself with get_or_insert, or cached by a nested load, is not an addition of this operation)
+                    if opname == "load" && !ok && added.contains(&own) && !nested.contains(&own) { rec.oracle_fail(format!("failed-load-cached `{line}` failed but cached its own key")); }
+                    if opname == "owned" && added.contains(&own) && !nested.contains(&own) { rec.oracle_fail(format!("load-owned-cached `{line}` cached its own key")); }
                     if opname == "goi" {
                         if !snap.contains_key(&own) && !(added.len() == 1 && added[0] == own) && out != "bad-op" { rec.oracle_fail(format!("goi-wrong-add `{line}` added {added:?}")); }
                         if snap.contains_key(&own) && !added.is_empty() { rec.oracle_fail(format!("goi-wrong-add `{line}` on a present key added {added:?}")); }
